@@ -381,14 +381,22 @@ def tols_for(Ma, base):
     return base * conda * scalea * na, (base * conda * na * 10 * max(1.0, 1.0 / eva.min().item()) if pda else float("inf"))
 
 
-def ancestor_cache_findings(watch, before, base):
+def ancestor_cache_findings(watch, before, base, lanc):
     """after a step on a derived operator: every factorization cached on an ancestor must still (or, if new, at all) factorize the ancestor's
-    matrix, unless a fresh copy of the ancestor computes an invalid one by itself (that is C06's business)"""
+    matrix, unless a fresh copy of the ancestor computes an invalid one by itself (that is C06's business) or a Lanczos-type method met a
+    repeated / vanishing eigenvalue of the ancestor (a compression onto the Krylov space by design, as everywhere else in this check)"""
     viol, ood = [], []
     for (opa, Ma), bad_before in zip(watch, before):
         tol, tol_inv = tols_for(Ma, base)
+        eva = torch.linalg.eigvalsh(Ma)
+        na = Ma.shape[-1]
+        distinct_a = bool(((eva[..., 1:] - eva[..., :-1]) > 1e-3 * eva[..., -1:]).all()) if na > 1 else True
+        pd_a = bool((eva[..., 0] > 1e-6 * eva[..., -1]).all())
         for key, name, args, kw, ok, msg in cache_checks(opa, Ma, tol, tol_inv):
             if ok or key in bad_before:
+                continue
+            if lanc and not (distinct_a and pd_a):
+                ood.append(f"{type(opa).__name__}: {msg} (Lanczos-type factor of a matrix with repeated eigenvalues)")
                 continue
             fresh = call(lambda: getattr(opa.clone(), name))
             own = call(lambda: fresh(*args, **kw)) if not isinstance(fresh, Raised) else fresh
@@ -564,8 +572,9 @@ def run(case):
                     continue
                 op2, M2, sp2, obs = out
                 if watch and not (a.startswith("d:") and op2 is op):
-                    base_a = 20 * jitter if ({"Lanczos", "CG", "MINRES", "Pivoted Cholesky"} & (hist_paths | q_paths)) else 1e-9
-                    av, ao = ancestor_cache_findings(watch, anc_before, base_a)
+                    lanc_a = bool({"Lanczos", "CG", "MINRES", "Pivoted Cholesky"} & (hist_paths | q_paths))
+                    base_a = 20 * jitter if lanc_a else 1e-9
+                    av, ao = ancestor_cache_findings(watch, anc_before, base_a, lanc_a)
                     if av:
                         subs.append(result(VIOL, kind="ancestor-cache", msg=f"after {a} on the derived operator a factorization cached on an operator it was derived from no longer "
                                            "factorizes that operator: " + "; ".join(av)[:300], feat=feat, keys=[key + "|anc"]))
